@@ -16,7 +16,9 @@ def gen_value(rng: random.Random) -> float:
         return float(rng.choice([0, 1]))
     if r < 0.85:
         return rng.randint(0, 16) / 16.0
-    return rng.random()
+    if r < 0.97:
+        return rng.randint(1, 1023) / 1024.0     # off-grid but short dyadic (cheap exact arithmetic)
+    return rng.random()                           # full 53-bit double (small quota: big rationals are slow)
 
 
 def gen_graph(rng: random.Random, max_lnls: int = 3, base: int | None = None, max_tumors: int = 2,
@@ -94,6 +96,8 @@ def gen_modalities(rng: random.Random, lo: int = 0, hi: int = 2) -> list:
                 return 0.0
             if r < 0.85:
                 return rng.randint(8, 16) / 16.0
+            if r < 0.97:
+                return rng.randint(1, 1023) / 1024.0
             return rng.random()
         mods.append([nm, sv(), sv(), rng.choice(["clinical", "pathological"])])
     return mods
